@@ -145,7 +145,21 @@ func (g *c06Gen) populate(b *c06Book, i int, tables bool, far bool) {
 		b.api(r, "merge", si, c06Cell(x1, y1), c06Cell(x2, y2))
 	}
 	for k := rng.Intn(3); k > 0; k-- {
-		b.api(r, "link", si, c06Cell(rng.Range(1, nc), rng.Range(1, nr)), rng.Pick([]string{"ext", "loc"}))
+		c, rw := rng.Range(1, nc), rng.Range(1, nr)
+		b.api(r, "link", si, c06Cell(c, rw), rng.Pick([]string{"ext", "loc"}))
+		if rng.Chance(45) {
+			// further links on the same row or column, stored next to each other in the hyperlink list
+			sameRow := rng.Bool()
+			for m := rng.Range(1, 2); m > 0; m-- {
+				if sameRow {
+					c += rng.Range(1, 2)
+				} else {
+					rw += rng.Range(1, 2)
+				}
+				b.api(r, "link", si, c06Cell(c, rw), rng.Pick([]string{"ext", "loc"}))
+			}
+			r.Stat("links:adjacent-same-row-or-col")
+		}
 	}
 	sqref := func() string {
 		var parts []string
@@ -528,12 +542,200 @@ func (g *c06Gen) insRmRun(b, t *c06Book, d *c06Dump, i int, rows bool, num, n in
 	}
 }
 
-type c06RowObs struct {
-	vals   []string
-	ht     float64
-	vis    bool
-	ol     uint8
-	merges []string
+// DuplicateRow / DuplicateRowTo, observed through the internal dump only (VerifC06Dump runs no
+// getter, so the verdict does not depend on which getters ran before: some getters used to
+// materialise row slots as a side effect and thereby masked a non-contiguous row slice).
+func (g *c06Gen) oracleDup(b *c06Book, i int) {
+	rng := g.rng
+	t := c06Rebuild(b.lines)
+	if t == nil {
+		return
+	}
+	d := c06Parse(t.dump(i))
+	t.f.Close()
+	if d.n > 100000 || len(d.tables) > 0 {
+		return
+	}
+	row := rng.Range(1, d.n+2)
+	row2 := rng.Range(1, d.n+4)
+	if rng.Chance(30) {
+		row2 = row + 1
+	}
+	g.dupRun(b, i, row, row2, rng.Chance(30) && row2 == row+1)
+}
+
+func c06RowSig(r c06RowD) string {
+	cs := make([]string, 0, len(r.cells))
+	for _, c := range r.cells {
+		cs = append(cs, fmt.Sprintf("%d~%s~%s", c.c, c.s, c.tok))
+	}
+	return fmt.Sprintf("%s/%s/%d/%s", r.h, r.attr, r.nc, strings.Join(cs, ","))
+}
+
+// dupRun: twin workbook from b's lines, DuplicateRowTo(row,row2) (or DuplicateRow when useDup), dump before/after.
+func (g *c06Gen) dupRun(b *c06Book, i, row, row2 int, useDup bool) {
+	r := g.r
+	t := c06Rebuild(b.lines)
+	if t == nil || i < 0 || i >= t.k {
+		return
+	}
+	defer t.f.Close()
+	sh := c06Sheet(i)
+	before := t.allDumps()
+	d := c06Parse(before[i])
+	var st string
+	if useDup {
+		st = c06Safe(func() error { return t.f.DuplicateRow(sh, row) })
+	} else {
+		st = c06Safe(func() error { return t.f.DuplicateRowTo(sh, row, row2) })
+	}
+	after := t.allDumps()
+	p := c06Parse(after[i])
+	r.Stat("oracle:dup:" + st)
+	switch {
+	case row2 > d.n+1:
+		r.Stat("oracle:dup:target-beyond-last-row")
+	case row2 < row:
+		r.Stat("oracle:dup:target-above-source")
+	default:
+		r.Stat("oracle:dup:target-below-source")
+	}
+	replay := b.replayText() + fmt.Sprintf("\noracle dup %d %d %d", i, row, row2)
+	fail := func(what, detail string) {
+		r.Fail("dup:"+what, fmt.Sprintf("DuplicateRowTo(%s,%d,%d): %s %s\n#   before: %s\n#   after:  %s", sh, row, row2, what, detail,
+			c06Trunc(before[i], 600), c06Trunc(after[i], 600)), 0, replay)
+	}
+	for j := range before {
+		if j != i && before[j] != after[j] {
+			fail("other-sheet-changed", c06Sheet(j))
+		}
+	}
+	if st != "ok" {
+		if st == "PANIC" {
+			fail("panic", "")
+		} else if before[i] != after[i] {
+			fail("rejected-changed", "")
+		}
+		return
+	}
+	if row2 < 1 || row2 == row {
+		if before[i] != after[i] {
+			fail("noop-call-changed", "")
+		}
+		return
+	}
+	if !c06ListedDense(p) {
+		fail("not-dense", "the row slice is not contiguous (slot k must hold row k+1)")
+		return
+	}
+	pre := map[int]string{}
+	for _, x := range d.rows {
+		pre[x.r] = c06RowSig(x)
+	}
+	exp := map[int]string{}
+	for k, v := range pre {
+		if k < row2 {
+			exp[k] = v
+		} else {
+			exp[k+1] = v
+		}
+	}
+	srcStored := row <= d.n
+	if v, ok := pre[row]; ok {
+		exp[row2] = v
+	}
+	got := map[int]string{}
+	for _, x := range p.rows {
+		got[x.r] = c06RowSig(x)
+	}
+	for k, v := range exp {
+		if got[k] != v {
+			what := "rows-not-shifted"
+			if k == row2 {
+				what = "copy-differs"
+			}
+			fail(what, fmt.Sprintf("(row %d: want %s got %s)", k, c06Trunc(v, 120), c06Trunc(got[k], 120)))
+			return
+		}
+	}
+	for k, v := range got {
+		if _, ok := exp[k]; !ok {
+			fail("unexpected-row", fmt.Sprintf("(row %d: %s)", k, c06Trunc(v, 120)))
+			return
+		}
+	}
+	if p.colsW != d.colsW {
+		fail("cols-changed", "")
+	}
+	o := c06Op{kind: "insrows", rows: true, ins: true, num: row2, k: 1}
+	// merges: shifted; single-row merges of the source row are repeated on the target row unless it lands strictly inside a merge
+	{
+		var expM []c06Rect
+		inside := false
+		for _, q := range d.merges {
+			n, _ := o.rect(q)
+			expM = append(expM, n)
+			if n.y1 < row2 && row2 < n.y2 {
+				inside = true
+			}
+		}
+		if srcStored && !inside {
+			for _, q := range d.merges {
+				if q.y1 == q.y2 && q.y1 == row {
+					expM = append(expM, c06Rect{q.x1, row2, q.x2, row2})
+				}
+			}
+		}
+		if p.mBad || !c06RectsEq(c06SortRects(expM), c06SortRects(p.merges)) {
+			fail("merge", fmt.Sprintf("want %v got %v", c06SortRects(expM), c06SortRects(p.merges)))
+		}
+	}
+	// sqrefs: shifted in place; items with single-row refs on the source row get a copy (those refs, on the target row) appended
+	sq := func(comp string, pre, post []c06SqD) {
+		var exp []c06SqD
+		for _, it := range pre {
+			var rs []c06Rect
+			for _, q := range it.rects {
+				n, _ := o.rect(q)
+				if n.y1 > c06TotalRows {
+					continue
+				}
+				if n.y2 > c06TotalRows {
+					n.y2 = c06TotalRows
+				}
+				rs = append(rs, n)
+			}
+			if len(rs) > 0 {
+				exp = append(exp, c06SqD{rects: rs, tok: it.tok})
+			}
+		}
+		if srcStored {
+			for _, it := range pre {
+				var rs []c06Rect
+				for _, q := range it.rects {
+					if q.y1 == q.y2 && q.y1 == row {
+						rs = append(rs, c06Rect{q.x1, row2, q.x2, row2})
+					}
+				}
+				if len(rs) > 0 {
+					exp = append(exp, c06SqD{rects: rs, tok: it.tok})
+				}
+			}
+		}
+		eq := len(exp) == len(post)
+		for k := 0; eq && k < len(exp); k++ {
+			eq = !post[k].bad && exp[k].tok == post[k].tok && c06RectsEq(exp[k].rects, post[k].rects)
+		}
+		if !eq {
+			rel := "target-below-source"
+			if row2 < row {
+				rel = "target-above-source"
+			}
+			fail(comp+":"+rel, fmt.Sprintf("want %v got %v", exp, post))
+		}
+	}
+	sq("dv", d.dvs, p.dvs)
+	sq("cf", d.cfs, p.cfs)
 }
 
 // cells inside a merged range other than its top-left cell: the getters redirect them to the top-left cell
@@ -557,152 +759,9 @@ func c06Covered(f *xl.File, sh string) map[[2]int]bool {
 	return out
 }
 
-func c06ObsRow(f *xl.File, sh string, row, ncols int, skip map[[2]int]bool) c06RowObs {
-	o := c06RowObs{}
-	for c := 1; c <= ncols; c++ {
-		if skip[[2]int{c, row}] {
-			o.vals = append(o.vals, "merged")
-			continue
-		}
-		cell := c06Cell(c, row)
-		v, _ := f.GetCellValue(sh, cell)
-		fm, _ := f.GetCellFormula(sh, cell)
-		st, _ := f.GetCellStyle(sh, cell)
-		ty, _ := f.GetCellType(sh, cell)
-		o.vals = append(o.vals, fmt.Sprintf("%q/%q/%d/%d", v, fm, st, ty))
-	}
-	o.ht, _ = f.GetRowHeight(sh, row)
-	o.vis, _ = f.GetRowVisible(sh, row)
-	o.ol, _ = f.GetRowOutlineLevel(sh, row)
-	return o
-}
-
-func (a c06RowObs) eq(b c06RowObs, attrs bool) bool {
-	if len(a.vals) != len(b.vals) {
-		return false
-	}
-	for i := range a.vals {
-		if a.vals[i] != b.vals[i] && a.vals[i] != "merged" && b.vals[i] != "merged" {
-			return false
-		}
-	}
-	return !attrs || (a.ht == b.ht && a.vis == b.vis && a.ol == b.ol)
-}
-
-// DuplicateRowTo / DuplicateRow through the public getters.
-func (g *c06Gen) oracleDup(b *c06Book, i int) {
-	r, rng := g.r, g.rng
-	t := c06Rebuild(b.lines)
-	if t == nil {
-		return
-	}
-	defer t.f.Close()
-	d := c06Parse(t.dump(i))
-	if d.n > 100000 || d.n == 0 || len(d.tables) > 0 {
-		return
-	}
-	sh := c06Sheet(i)
-	ncols := 1
-	for _, rr := range d.rows {
-		if rr.nc > ncols {
-			ncols = rr.nc
-		}
-	}
-	if ncols > 40 {
-		ncols = 40
-	}
-	row := rng.Range(1, d.n)
-	row2 := rng.Range(1, d.n+2)
-	useDup := rng.Chance(30)
-	if useDup {
-		row2 = row + 1
-	}
-	if row2 == row {
-		row2 = row + 1
-	}
-	maxRow := d.n + 3
-	var before []c06RowObs
-	cov := c06Covered(t.f, sh)
-	for k := 1; k <= maxRow; k++ {
-		before = append(before, c06ObsRow(t.f, sh, k, ncols, cov))
-	}
-	mBefore, _ := t.f.GetMergeCells(sh)
-	others := t.allDumps()
-	var st string
-	if useDup {
-		st = c06Safe(func() error { return t.f.DuplicateRow(sh, row) })
-	} else {
-		st = c06Safe(func() error { return t.f.DuplicateRowTo(sh, row, row2) })
-	}
-	r.Stat("oracle:dup:" + st)
-	replay := b.replayText() + fmt.Sprintf("\n# then: DuplicateRowTo(%s, %d, %d)", sh, row, row2)
-	if st != "ok" {
-		if st == "PANIC" {
-			r.Fail("dup:panic", fmt.Sprintf("DuplicateRowTo(%s,%d,%d) panicked", sh, row, row2), 0, replay)
-		}
-		return
-	}
-	var after []c06RowObs
-	cov = c06Covered(t.f, sh)
-	for k := 1; k <= maxRow+1; k++ {
-		after = append(after, c06ObsRow(t.f, sh, k, ncols, cov))
-	}
-	fail := func(what string, k int) {
-		r.Fail("dup:"+what, fmt.Sprintf("DuplicateRowTo(%s,%d,%d): %s (row %d)", sh, row, row2, what, k), 0, replay)
-	}
-	for k := 1; k <= maxRow; k++ {
-		switch {
-		case k < row2:
-			if !before[k-1].eq(after[k-1], true) {
-				fail("row-before-target-changed", k)
-				k = maxRow
-			}
-		default:
-			if !before[k-1].eq(after[k], true) {
-				fail("row-below-target-not-shifted", k)
-				k = maxRow
-			}
-		}
-	}
-	if !before[row-1].eq(after[row2-1], false) {
-		fail("copy-differs-from-source-cells", row2)
-	} else if !before[row-1].eq(after[row2-1], true) {
-		fail("copy-differs-from-source-rowattrs", row2)
-	}
-	// single-row merges on the source row are duplicated onto the target (unless the target lands inside a merge)
-	mAfter, _ := t.f.GetMergeCells(sh)
-	have := map[string]bool{}
-	for _, m := range mAfter {
-		have[m.GetStartAxis()+":"+m.GetEndAxis()] = true
-	}
-	inside := false
-	type mr struct{ x1, y1, x2, y2 int }
-	var ms []mr
-	for _, m := range mBefore {
-		x1, y1, _ := xl.CellNameToCoordinates(m.GetStartAxis())
-		x2, y2, _ := xl.CellNameToCoordinates(m.GetEndAxis())
-		ms = append(ms, mr{x1, y1, x2, y2})
-		if y1 < row2 && row2 <= y2 {
-			inside = true
-		}
-	}
-	if !inside {
-		for _, m := range ms {
-			if m.y1 == m.y2 && m.y1 == row {
-				if !have[c06Cell(m.x1, row2)+":"+c06Cell(m.x2, row2)] {
-					fail("single-row-merge-not-duplicated", row2)
-				}
-			}
-		}
-	}
-	for j, od := range t.allDumps() {
-		if j != i && od != others[j] {
-			r.Fail("dup:other-sheet-changed", fmt.Sprintf("DuplicateRowTo(%s,%d,%d) changed %s", sh, row, row2, c06Sheet(j)), 0, replay)
-		}
-	}
-}
-
-// public-API observation of an accepted structural edit on a twin (getters may have side effects).
+// public-API observation of an accepted structural edit on twins: the getters that observe the state
+// before the edit run on one twin, the edit itself on a second twin on which no getter has run (a getter
+// with a side effect on the row slots can therefore not mask or cause a deviation) (getters may have side effects).
 func (g *c06Gen) oracleAPI(b *c06Book, line string) {
 	r := g.r
 	w := strings.Fields(line)
@@ -777,10 +836,15 @@ func (g *c06Gen) oracleAPI(b *c06Book, line string) {
 	}
 	pre := observe(t.f, nr, nc)
 	hadFilter := d.hasFlt
-	if st := c06Safe(func() error { return t.call(o, sh, w) }); st != "ok" {
+	t2 := c06Rebuild(b.lines)
+	if t2 == nil {
 		return
 	}
-	post := observe(t.f, nr+k, nc+k)
+	defer t2.f.Close()
+	if st := c06Safe(func() error { return t2.call(o, sh, w) }); st != "ok" {
+		return
+	}
+	post := observe(t2.f, nr+k, nc+k)
 	r.Stat("oracle:api-observation")
 	replay := b.replayText() + "\n" + line
 	exp := map[[2]int]string{}
@@ -946,6 +1010,26 @@ func (g *c06Gen) witnesses() {
 	insrm([][]string{{"dv", "0", hx("A1:XFD1"), "whole"}}, false, 3, 1)
 	insrm([][]string{{"cf", "0", hx("A1:XFD1"), "3"}}, false, 3, 1)
 	insrm([][]string{{"colw", "0", "XFC", "XFD", "20"}}, false, 3, 1)
+	// DuplicateRowTo: target beyond the last row, just after it, above the source, source not stored
+	{
+		b := c06New(nil, 1)
+		for _, st := range [][]string{{"setint", "0", "A2", "22"}, {"setint", "0", "A4", "44"}, {"rowht", "0", "4", "30"},
+			{"merge", "0", "B4", "C4"}, {"dv", "0", hx("A4"), "whole"}, {"cf", "0", hx("A4:C4"), "3"}} {
+			b.api(nil, st...)
+		}
+		b.f.Close()
+		for _, rr := range [][2]int{{4, 8}, {4, 5}, {4, 6}, {4, 2}, {4, 1}, {2, 4}, {7, 2}, {1, 0}} {
+			g.dupRun(b, 0, rr[0], rr[1], false)
+		}
+	}
+	// several hyperlinks on the removed row / column, adjacent in the list
+	links := [][]string{{"link", "0", "B3", "loc"}, {"link", "0", "D3", "ext"}, {"link", "0", "E3", "loc"}, {"link", "0", "B5", "ext"}, {"link", "0", "B6", "loc"}, {"setint", "0", "A1", "1"}}
+	run(1, links, "rmrow 0 3 f")
+	run(1, links, "rmcol 0 "+hx("B")+" f")
+	// rejected InsertCols: content at XFD in a later row than content that would move first; a formula on a sheet visited earlier
+	run(1, [][]string{{"setint", "0", "A1", "1"}, {"setint", "0", "C2", "2"}, {"setint", "0", "XFD3", "3"}, {"setint", "0", "B4", "4"}}, "inscols 0 "+hx("A")+" 1 f")
+	run(2, [][]string{{"setf", "0", "A1", hx("S2!C1+1")}, {"setint", "1", "C1", "5"}, {"setint", "1", "XFD2", "3"}}, "inscols 1 "+hx("A")+" 1 f")
+	run(2, [][]string{{"setint", "0", "A1048576", "1"}, {"setint", "0", "A3", "2"}, {"setf", "1", "A1", hx("S1!A5+1")}}, "insrows 0 2 3 f")
 	// hyperlink at the limit
 	run(1, [][]string{{"link", "0", "A1048576", "ext"}, {"setint", "0", "A2", "1"}}, "insrows 0 1 1 f")
 }
@@ -1010,6 +1094,13 @@ func c06Replay(r *Run, path string) {
 				}
 			}
 		case "oracle":
+			if b != nil && len(w) == 5 && w[1] == "dup" {
+				i, _ := strconv.Atoi(w[2])
+				row, _ := strconv.Atoi(w[3])
+				row2, _ := strconv.Atoi(w[4])
+				g.dupRun(b, i, row, row2, false)
+				b.emit(r, line, "ok")
+			}
 			// oracle insrm <i> <rows|cols> <num> <n>: the insert/remove identity oracle on a twin workbook
 			if b != nil && len(w) == 6 && w[1] == "insrm" {
 				i, _ := strconv.Atoi(w[2])
